@@ -79,12 +79,23 @@ def _limits():
 
 
 def _run(cmd, timeout, cwd=None):
+    """run a tool in its own process group; on timeout the whole group is killed (cbmc leaves its SMT solver child running otherwise)"""
+    import signal
     t0 = time.time()
+    p = subprocess.Popen(cmd, stdout=subprocess.PIPE, stderr=subprocess.PIPE, text=True, cwd=cwd, preexec_fn=_limits, start_new_session=True)
     try:
-        p = subprocess.run(cmd, capture_output=True, text=True, timeout=timeout, cwd=cwd, preexec_fn=_limits)
-        return p.returncode, p.stdout, p.stderr, time.time() - t0, False
-    except subprocess.TimeoutExpired as e:
-        return -1, (e.stdout or b'').decode('utf-8', 'replace') if isinstance(e.stdout, bytes) else (e.stdout or ''), '', time.time() - t0, True
+        out, err = p.communicate(timeout=timeout)
+        return p.returncode, out, err, time.time() - t0, False
+    except subprocess.TimeoutExpired:
+        try:
+            os.killpg(p.pid, signal.SIGKILL)
+        except ProcessLookupError:
+            pass
+        try:
+            out, err = p.communicate(timeout=10)
+        except Exception:
+            out, err = '', ''
+        return -1, out or '', err or '', time.time() - t0, True
 
 
 def spec_of(item):
